@@ -433,6 +433,10 @@ func (c *ClientConn) adaptPrepareFrame(cached *frame.RawFrame) (*frame.RawFrame,
 		return nil, err
 	}
 	frm.Header.Version = c.version
+	if c.version < primitive.ProtocolVersion4 {
+		// Custom payloads don't exist before version 4, the statement is prepared without the one it was cached with
+		frm.SetCustomPayload(nil)
+	}
 	return c.getCodec().ConvertToRawFrame(frm)
 }
 
